@@ -246,7 +246,34 @@ fn run_mode(a: &Args, mode: &'static str) -> Collector {
     } else {
         visit_hists(&mut vis);
     }
-    let q = std::mem::take(&mut vis.q);
+    let mut q = std::mem::take(&mut vis.q);
+    // which of the generated declarations satisfy the hypothesis (declWFb) of the round-trip theorems
+    q.push(crate::cases::Pending {
+        req: "wfall".to_string(),
+        check: Box::new(|resp: &str, c: &mut Collector| {
+            let mut wf = 0u64;
+            let mut outside: Vec<String> = vec![];
+            for tok in resp.split_whitespace() {
+                if let Some(n) = tok.strip_prefix("wf=") {
+                    wf = n.parse().unwrap_or(0);
+                } else if let Some(n) = tok.strip_prefix("outside=") {
+                    if !n.is_empty() {
+                        outside.push(n.to_string());
+                    }
+                } else if tok != "ok" {
+                    outside.push(tok.to_string());
+                }
+            }
+            if !resp.starts_with("ok ") {
+                c.fail("harness", "corr", "wfall", "wfall".into(), resp.to_string());
+            }
+            *c.stats.entry("decls-satisfying-declWFb".to_string()).or_insert(0) += wf;
+            *c.stats.entry("decls-outside-declWFb".to_string()).or_insert(0) += outside.len() as u64;
+            for n in outside {
+                c.stat(&format!("outside-declWFb:{}", n));
+            }
+        }),
+    });
     flush(&mut c, q, &env_lines());
     c
 }
